@@ -115,8 +115,19 @@ func rawblobTerm(flags byte, key, eiv, div []byte, ectr, dctr uint32, sdg, rdg, 
 }
 
 // importObs runs the real importer on bs and renders what it installed as an `option rawblob` term.
-func importObs(bs []byte) (string, bool) {
+// importPanic records the blobs on which the real importer panicked instead of returning an error.
+var importPanic []string
+
+func importObs(bs []byte) (term string, ok bool) {
 	ca, _, _, _ := ss.Pair()
+	defer func() {
+		if p := recover(); p != nil {
+			importPanic = append(importPanic, fmt.Sprintf("NewStreamWithCryptoState panicked on a %d-byte blob (%x): %v", len(bs), bs, p))
+			term, ok = "None", false
+		}
+	}()
+	// the blob is handed over in a slice of exactly its length (no spare capacity behind it)
+	bs = append(make([]byte, 0, len(bs)), bs...)
 	st, err := stream.NewStreamWithCryptoState(ca, bs)
 	if err != nil {
 		return "None", false
@@ -216,6 +227,11 @@ func blobChecks(c *core.Ctx) {
 		c.AddCase(fmt.Sprintf("CParse %s %s", core.Hex(bs), obs), map[string]interface{}{"blob": "random"})
 	}
 	c.Count("blob-random")
+	// import rejects bad blobs with an ERROR: a panic on any of the blobs above is a failure of its own
+	for _, msg := range importPanic {
+		c.OracleFail("import-panics", msg, map[string]interface{}{"blob": true, "panic": msg})
+	}
+	importPanic = nil
 }
 
 func gen(c *core.Ctx) error {
